@@ -154,6 +154,34 @@ def run_spec(spec, props=("C08",)):
                     if d > 1e-6:
                         A.add(V("C08", "Attack_rate_discrete", "histogram", "final_size", "%s p=%g: Attack_rate_discrete=%.9f, EBCM_discrete R(inf)/N=%.9f" % (tag, p, ard, Rd[-1] / N), (), ard, Rd[-1] / N))
                 A.outcomes.add(hsh((round(ar, 6), round(ard, 6))))
+        # general initial conditions: degree-dependent Sk0 and explicit phiS0 / phiR0 (edges to initially recovered nodes)
+        ks = [k for k in range(len(Nk)) if Nk[k]]
+        for vi, (sk, phiS0, phiR0) in enumerate(spec.get("general_ics", [])):
+            Sk0 = {k: sk[k % len(sk)] for k in ks}
+            def gpsi(x, Sk0=Sk0): return sum(Pk[k] * Sk0[k] * x ** k for k in ks)
+            def gpsiP(x, Sk0=Sk0): return sum(k * Pk[k] * Sk0[k] * x ** (k - 1) for k in ks if k)
+            if gpsiP(1.0) <= 0:
+                continue
+            kav = sum(k * Pk[k] for k in ks)
+            for (tau, gamma) in spec["rates"]:
+                A.evals += 1
+                tag = "degree histogram %r Sk0=%r phiS0=%r phiR0=%r tau=%g gamma=%g" % (Nk, Sk0, phiS0, phiR0, tau, gamma)
+                try:
+                    ar = EoN.Attack_rate_cts_time(Pk, tau, gamma, Sk0=dict(Sk0), phiS0=phiS0, phiR0=phiR0, number_its=spec.get("its", 400))
+                    ph = phiS0 if phiS0 is not None else gpsiP(1.0) / kav
+                    t, S, I, R = EoN.EBCM(N, gpsi, gpsiP, tau, gamma, ph, phiR0=phiR0, R0=0, tmax=spec["tmax"], tcount=201)
+                except Exception as e:
+                    A.add(V("C08", "Attack_rate_cts_time", "histogram+general_ic", "exception", "%s raised %s: %s" % (tag, type(e).__name__, str(e)[:100]))); continue
+                A.trans.add(("cts-gen", tuple(Nk), vi, tau, gamma))
+                if I[-1] / N < 1e-9 and abs(I[-1] - I[-2]) / N < 1e-10:
+                    d = abs(ar - R[-1] / N)
+                    A.max["max_dev_attack_rate_cts_general_ic"] = max(A.max.get("max_dev_attack_rate_cts_general_ic", 0.0), d)
+                    A.count["general_ic_compared"] = A.count.get("general_ic_compared", 0) + 1
+                    if d > 1e-6:
+                        A.add(V("C08", "Attack_rate_cts_time", "histogram+general_ic", "final_size", "%s: Attack_rate_cts_time=%.9f, EBCM R(inf)/N=%.9f" % (tag, ar, R[-1] / N), (), ar, R[-1] / N))
+                else:
+                    A.count["not_converged_skipped"] = A.count.get("not_converged_skipped", 0) + 1
+                A.outcomes.add(hsh(("gen", round(ar, 6))))
         A.execs = A.evals
         A.sample = {"spec": spec}
         return A.result(props)
@@ -240,7 +268,8 @@ def specs(tier):
     for Nk in itertools.product(range(cm + 1), repeat=km + 1):
         if sum(Nk[1:]) == 0:
             continue
-        out.append(dict(kind="final_size", Nk=list(Nk), rhos=[0.05, 0.2, 0.5], rates=[(0.3, 0.7), (1.1, 1.0), (2.0, 0.5)], tmax=400.0))
+        out.append(dict(kind="final_size", Nk=list(Nk), rhos=[0.05, 0.2, 0.5], rates=[(0.3, 0.7), (1.1, 1.0), (2.0, 0.5)], tmax=400.0,
+                        general_ics=[[[0.7], None, 0.15], [[0.95, 0.6, 0.8], 0.6, 0.2], [[0.9, 0.5], 0.45, 0.0]] + ([[[1.0, 0.4], 0.3, 0.5]] if thorough else [])))
     gs = [(n, es) for n, es in gr.small_graphs(3) if es] + [(4, es) for es in gr.shapes(4) if es]
     if thorough:
         gs += [(5, es) for es in gr.shapes(5) if es]
